@@ -207,8 +207,52 @@ def transmitter(c):
     c.timeout_s = max(c.timeout_s, 240)
 
 
+# ===================================================================================== wiring (caller-side obligations)
+def lemmas_headers_reach_the_transmitter(c, U):
+    """USB3LinkLayer: the protocol layer's header queue and the data packet transmitter's header queue are merged (HeaderQueueArbiter)
+    into PacketTransmitter.queue."""
+    from .c46_ss_in_endpoint import header_arbiter_path
+    header_arbiter_path(c, U.ts, U.hp_mux, [("protocol_layer", U.d.header_sink), ("data_packet_transmitter", U.data_tx.header_source)],
+                        U.ptx.queue, "hq")
+
+
+def lemmas_packets_reach_the_phy(c, U):
+    """PacketTransmitter / USB3LinkLayer: the RawPacketTransmitter's stream is the transmitter's source, input 3 of the transmit arbiter;
+    its payload comes from the data packet transmitter."""
+    from .c46_ss_in_endpoint import stream_same, raw_stream_to_phy, TX_STREAM
+    ts, S = U.ts, U.S
+    c.lemma("payload_of_raw_transmitter_is_data_packet_transmitter_output",
+            z3.And(stream_same(ts, U.raw_tx.data_sink, U.data_tx.data_source, TX_STREAM), S(U.data_tx.data_source.ready, U.raw_tx.data_sink.ready),
+                   stream_same(ts, U.ptx.data_sink, U.data_tx.data_source, TX_STREAM)),
+            clause="a data header is followed by its payload: RawPacketTransmitter.data_sink (inside PacketTransmitter) is the "
+                   "DataPacketTransmitter's data_source (valid, payload, first, last; ready back)")
+    raw_stream_to_phy(c, ts, U.arb, 3, U.ptx.source, U.raw_tx.source, "packet_transmitter", U.phy, "hp")
+
+
+def link_layer_transmitter_wiring(c):
+    from .c37_header_receive import LinkLayerUnits, lemmas_enable_and_reset, lemmas_receive_stream, as_bit
+    U = LinkLayerUnits(c)
+    of, S, ptx, hrx, det = U.of, U.S, U.ptx, U.hrx, U.det
+    lemmas_enable_and_reset(c, U, ptx, "packet_transmitter", "(require link_up) the link in U0")
+    lemmas_receive_stream(c, U, [("packet_transmitter", ptx.sink), ("link_command_detector", det.sink)],
+                          clause="All partner link-command histories: the link command detector inside PacketTransmitter sees the physical "
+                                 "layer's receive stream")
+    lemmas_headers_reach_the_transmitter(c, U)
+    lemmas_packets_reach_the_phy(c, U)
+    c.lemma("transmitter_waits_for_our_lrty", S(ptx.lrty_pending, hrx.lrty_pending),
+            clause="after an LBAD retransmits ...: retransmission starts once the receiver has sent the LRTY (lrty_pending is the receiver's)")
+    c.lemma("receiver_is_told_to_send_lrty_on_partner_LBAD", z3.And(of(hrx.retry_required) == as_bit(U.is_cmd(LBAD)), S(hrx.retry_required, ptx.retry_required)),
+            clause="after an LBAD: the LBAD report that restarts transmission is the one that makes the receiver send LRTY")
+    c.lemma("link_ready_is_transmitter_bringup_complete", S(U.d.ready, ptx.bringup_complete))
+    c.lemma("timers_see_received_link_commands", z3.And(S(ptx.link_command_received, det.new_command), S(U.tm.link_command_received, det.new_command)))
+    c.lemma("transmitter_errors_trigger_link_recovery",
+            of(U.ltssm.trigger_link_recovery) == (of(U.tm.transition_to_recovery) | of(hrx.recovery_required) | of(ptx.recovery_required)),
+            clause="(LCRD/LGOOD mismatches) an out-of-order credit or acknowledgement sends the link to recovery")
+
+
 def contracts(tier):
     yield ("PacketTransmitter", "", transmitter)
+    yield ("USB3LinkLayer", "wiring_transmitter", link_layer_transmitter_wiring)
 
 
 LEVEL = "proof"
